@@ -504,6 +504,7 @@ fn run_stmts<'a, Ef: SimEffect>(
                         env.acc = v;
                     }
                 }
+                Stmt::Fault => panic!("injected task fault"),
                 Stmt::Yield(n) => {
                     for _ in 0..*n {
                         YieldOnce(false).await;
@@ -674,6 +675,7 @@ fn legacy_stmts<'a>(stmts: &'a [Stmt], env: &'a mut LEnv, ctx: &'a LegacyCtx) ->
                         env.acc = v;
                     }
                 }
+                Stmt::Fault => panic!("injected task fault"),
                 Stmt::Yield(n) => {
                     for _ in 0..*n {
                         YieldOnce(false).await;
